@@ -12,6 +12,11 @@ dep[i][j] (symbolic boolean) is still unresolved.  dep[i][i] is allowed
     under the path condition;
   * on failure the error is 'Unresolvable cross references' and names exactly
     the references the fixpoint leaves unresolved.
+A second family gates only the references textX's own postponing provider
+(ExtRelativeName) waits for — Call.cls and the Class.base chain — and lets the
+real ExtRelativeName resolve the method references: success iff the fixpoint
+resolves the gated references, the methods found are those of the first class
+on the chain defining exactly that name.
 """
 import os
 import re
@@ -176,6 +181,137 @@ def run_case(ci, timeout_ms, via_api=False):
     return ctx, outs
 
 
+# ---------------------------------------------------------------- textX's own postponing provider
+# ExtRelativeName answers Postponed itself while the reference it starts from (Call.cls) or an extension
+# reference on the definition chain (Class.base) is unresolved.  Those references are gated by the symbolic
+# dependency matrix; the method references are resolved by the real ExtRelativeName.
+B_GRAMMAR = """
+Model: classes+=Class calls+=Call;
+Class: 'class' name=ID ('extends' base=[Class])? '{' methods*=Method '}';
+Method: 'def' name=ID;
+Call: 'call' cls=[Class] '.' method=[Method];
+"""
+B_CASES = [
+    ('ext-relative-name', "class A { def run def stop } class B extends A { def run_fast def go } "
+                          "call B.run call B.go"),
+    ('ext-relative-name-3', "class A { def run def stop } class B extends A { def run_fast } "
+                            "class C extends B { def stop_now def go } call C.run call B.stop call C.run_fast"),
+]
+
+
+def b_keys(text):
+    keys = ['base_' + m for m in re.findall(r'class (\w+) extends', text)]
+    keys += ['cls_%d' % i for i in range(len(re.findall(r'call ', text)))]
+    return keys
+
+
+def b_expected(text):
+    """[(owner class, method)] per call: first class on the extension chain that defines exactly that name"""
+    classes = {m.group(1): (m.group(2), re.findall(r'def (\w+)', m.group(3)))
+               for m in re.finditer(r'class (\w+)(?: extends (\w+))? \{([^}]*)\}', text)}
+    out = []
+    for c, meth in re.findall(r'call (\w+)\.(\w+)', text):
+        cur = c
+        while cur is not None and meth not in classes[cur][1]:
+            cur = classes[cur][0]
+        out.append((cur, meth))
+    return out
+
+
+def b_load(bi, decide):
+    """one real load; decide(i, j) -> does wrapped reference i wait for wrapped reference j?"""
+    from textx import metamodel_from_str, get_model
+    from textx.scoping import Postponed
+    import textx.scoping.providers as P
+    from textx.exceptions import TextXSemanticError
+    text = B_CASES[bi][1]
+    keys = b_keys(text)
+    mm = metamodel_from_str(B_GRAMMAR)
+    resolved = set()
+    calls = [0]
+    inner = P.PlainName()
+
+    def gated(obj, attr, obj_ref):
+        calls[0] += 1
+        if calls[0] > 300:
+            raise RuntimeError('step budget exceeded (non-termination?)')
+        key = 'base_' + obj.name if attr.name == 'base' else 'cls_%d' % [id(x) for x in get_model(obj).calls].index(id(obj))
+        i = keys.index(key)
+        for j, kj in enumerate(keys):
+            if kj not in resolved and decide(i, j):
+                return Postponed()
+        res = inner(obj, attr, obj_ref)
+        if res is not None:
+            resolved.add(key)
+        return res
+    mm.register_scope_providers({'Class.base': gated, 'Call.cls': gated,
+                                 'Call.method': P.ExtRelativeName('cls', 'methods', 'base')})
+    try:
+        m = mm.model_from_str(text)
+    except TextXSemanticError as e:
+        return ('semantic', str(e))
+    got = [(c.method.parent.name, c.method.name) for c in m.calls]
+    if got != b_expected(text):
+        return ('wrong', 'methods resolved to %s, expected %s' % (got, b_expected(text)))
+    return ('ok', None)
+
+
+def run_builtin(bi, timeout_ms):
+    keys = b_keys(B_CASES[bi][1])
+    k = len(keys)
+    dep = [[z3.Bool('dep_%s_%s' % (keys[i], keys[j])) for j in range(k)] for i in range(k)]
+    R = fixpoint(dep, k)
+    ctx = Ctx(timeout_ms, max_paths=300000)
+
+    def path(c):
+        try:
+            out = b_load(bi, lambda i, j: c.branch(dep[i][j]))
+        except RuntimeError as e:
+            return ('nonterminating', str(e), None)
+        except symx.Unsupported:
+            raise
+        except Exception as e:  # noqa
+            return ('bad', 'load raised %s: %s' % (type(e).__name__, e), decode(c.model(), dep, keys))
+        all_res = And(*R)
+        if out[0] == 'wrong':
+            return ('bad', out[1], decode(c.model(), dep, keys))
+        if out[0] == 'ok':
+            v, mdl = c.must(all_res)
+            if v != 'unsat':
+                return ('bad' if v == 'sat' else 'unknown', 'load succeeded although the dependencies admit no order',
+                        decode(mdl, dep, keys))
+            return ('ok', None, None)
+        if 'Unresolvable cross references' not in out[1]:
+            return ('bad', 'unexpected error: %s' % out[1][:80], decode(c.model(), dep, keys))
+        v, mdl = c.must(Not(all_res))
+        if v != 'unsat':
+            return ('bad' if v == 'sat' else 'unknown', 'load failed although an order exists', decode(mdl, dep, keys))
+        return ('ok-fail', None, None)
+    outs = ctx.explore(path)
+    if not any(o[0] == 'ok' for o in outs):
+        raise RuntimeError('vacuous case (no dependency matrix loads): %s %r' % (B_CASES[bi][0], outs[:1]))
+    return ctx, outs
+
+
+def replay_builtin(bi, depmap):
+    keys = b_keys(B_CASES[bi][1])
+    k = len(keys)
+    dep = [[keys[j] in (depmap or {}).get(keys[i], []) for j in range(k)] for i in range(k)]
+    R = fixpoint(dep, k)
+    try:
+        out = b_load(bi, lambda i, j: dep[i][j])
+    except Exception as e:  # noqa
+        return True, 'load raised %s: %s' % (type(e).__name__, e)
+    if out[0] == 'wrong':
+        return True, out[1]
+    if (out[0] == 'ok') != all(R):
+        return True, 'load %s, fixpoint says %s' % ('succeeded' if out[0] == 'ok' else 'failed: ' + out[1][:80],
+                                                    'resolvable' if all(R) else 'unresolvable')
+    if out[0] == 'semantic' and 'Unresolvable cross references' not in out[1]:
+        return True, 'unexpected error: %s' % out[1][:80]
+    return False, 'ok'
+
+
 def exactly(n, terms):
     import itertools
     if n > len(terms):
@@ -199,8 +335,11 @@ def decode(mdl, dep, unames):
 def obligation(item):
     ci, timeout_ms = item[:2]
     via_api = len(item) > 2 and item[2]
-    ctx, outs = run_case(ci, timeout_ms, via_api)
-    res = {'case': CASES[ci][0] + (' (pending asked via needs_to_be_resolved)' if via_api else ''), 'paths': ctx.paths, 'queries': ctx.queries, 'solver_s': ctx.secs,
+    if isinstance(ci, str):
+        ctx, outs = run_builtin(int(ci[1:]), timeout_ms)
+    else:
+        ctx, outs = run_case(ci, timeout_ms, via_api)
+    res = {'case': (B_CASES[int(ci[1:])][0] if isinstance(ci, str) else CASES[ci][0]) + (' (pending asked via needs_to_be_resolved)' if via_api else ''), 'paths': ctx.paths, 'queries': ctx.queries, 'solver_s': ctx.secs,
            'ok': 0, 'okfail': 0, 'bad': [], 'unknown': 0, 'truncated': ctx.truncated}
     for o in outs:
         if o[0] == 'ok':
@@ -293,11 +432,13 @@ def main():
     quick = chk.tier == 'quick'
     cases = [0, 1, 2] if quick else list(range(len(CASES)))
     items = [(ci, 20000, api) for ci in cases for api in (False, True)]
+    items += [('b%d' % bi, 20000, False) for bi in (range(1) if quick else range(len(B_CASES)))]
     results = pmap(obligation, items)
     chk.cov['functions_encoded'] = src_hash(M.ReferenceResolver.resolve_one_step, M.parse_tree_to_objgraph)
     chk.cov['bounds'] = {'cases': [CASES[c][0] for c in cases], 'references': '3 (quick) / up to 4 (thorough)',
                          'provider_call_budget': 200}
-    chk.cov['stubs'] = ['scope provider = ImportURI(PlainNameImportURI) gated by the symbolic dependency matrix']
+    chk.cov['stubs'] = ['scope provider = ImportURI(PlainNameImportURI) gated by the symbolic dependency matrix',
+                        'ExtRelativeName family: PlainName gated by the matrix for Class.base / Call.cls, real ExtRelativeName for Call.method']
     chk.cov['outside_claim'] = ['more references', 'providers whose Postponed decision depends on anything but '
                                 'which references are resolved']
     chk.assumptions = ['finite dependency space explored lazily (solver-steered path enumeration); the fixpoint '
@@ -311,10 +452,15 @@ def main():
         paths += r['paths']
         chk.cov['inconclusive'] += r['unknown'] + (1 if r['truncated'] else 0)
         for b in r['bad']:
-            bad, detail = replay_dep(b['case'], b['dep'], b.get('via_api', False)) if b['dep'] is not None else (True, b['detail'])
+            if isinstance(b['case'], str):
+                bad, detail = replay_builtin(int(b['case'][1:]), b['dep']) if b['dep'] is not None else (True, b['detail'])
+                cname = B_CASES[int(b['case'][1:])][0]
+            else:
+                bad, detail = replay_dep(b['case'], b['dep'], b.get('via_api', False)) if b['dep'] is not None else (True, b['detail'])
+                cname = CASES[b['case']][0]
             chk.cov['traces_validated_against_impl'] += 1
             if bad:
-                chk.violation('%s: %s (dependencies %s): %s' % (CASES[b['case']][0], b['detail'], b['dep'],
+                chk.violation('%s: %s (dependencies %s): %s' % (cname, b['detail'], b['dep'],
                                                                detail), b)
             else:
                 chk.cov['model_mismatches'] += 1
@@ -331,4 +477,6 @@ def main():
 
 
 def replay(data):
+    if isinstance(data['case'], str):
+        return replay_builtin(int(data['case'][1:]), data['dep'])
     return replay_dep(data['case'], data['dep'], data.get('via_api', False))
